@@ -31,6 +31,7 @@ def corpus():
         "run prop=C05 mode=users conc=5 dur=400 body=15",
         "run prop=C05 mode=constant rate=5/100ms dur=600 conc=4 setupfail=1",
         "raterun.stop inflight 5 40 10", "raterun.stop due 5 40 10",
+        "run prop=C05 mode=constant rate=2/100ms dur=2500 conc=2 body=5 cancel=1100 stallprogress=500",   # interrupted while a progress line is being reported
         "result.stress 500",      # the reporter's tick body against the controller's pre-Stop calls on one Result
         "run prop=C05 mode=staged stages=0s:4,300ms:4 freq=100 dist=none dur=2500 conc=4 body=10",     # the trigger's own duration ends the run
         "run prop=C05 mode=file dur=2500 conc=3 file=c:200:3/100ms;u:200:2 body=10",
